@@ -176,6 +176,18 @@ class PrintReader:
             if c["op"] == "&&":
                 return False if (a is False or b is False) else (True if a and b else None)
             return True if (a is True or b is True) else (False if a is False and b is False else None)
+        if k == "bin" and c.get("op") in ("==", "!=", "<", "<=", ">", ">="):
+            # a comparison of precedences, each a function of the printed node's kind only
+            try:
+                a, b = self.threshold(c["lhs"]), self.threshold(c["rhs"])
+            except _Opaque:
+                a = b = None
+            if a is not None and b is not None and self.kind in self.prec:
+                va = _threshold_value(a, self.prec[self.kind], self.prec)
+                vb = _threshold_value(b, self.prec[self.kind], self.prec)
+                if va is not None and vb is not None:
+                    return {"==": va == vb, "!=": va != vb, "<": va < vb, "<=": va <= vb, ">": va > vb,
+                            ">=": va >= vb}[c["op"]]
         if k == "bin" and c.get("op") in ("==", "!="):
             for x, y in ((c["lhs"], c["rhs"]), (c["rhs"], c["lhs"])):
                 if self._is_kind_expr(x) and y.get("k") == "ref" and y.get("dk") == "enumerator":
@@ -269,6 +281,25 @@ class PrintReader:
             return e["args"][0]["v"]
         return None
 
+    def threshold(self, e):
+        """The precedence an embrace helper compares the child's precedence with, as a small term over `parent` (the
+        precedence of the node being printed), `K:<kind>` (get_precedence(<kind>)) and max/min."""
+        while e.get("k") in ("cast", "paren") and e.get("e"):
+            e = e["e"]
+        if e.get("k") == "ref" and e.get("name") == "precedence":
+            return "parent"
+        if e.get("k") == "call" and e.get("name") == "get_precedence":
+            args = e.get("args", [])
+            if not args:
+                return "parent"
+            if len(args) == 1 and args[0].get("k") == "ref" and args[0].get("dk") == "enumerator":
+                return "K:" + args[0]["name"]
+            if len(args) == 1 and self._is_kind_expr(args[0]):
+                return "parent"
+        if e.get("k") == "call" and e.get("name") in ("max", "min") and len(e.get("args", [])) == 2:
+            return "%s(%s,%s)" % (e["name"], self.threshold(e["args"][0]), self.threshold(e["args"][1]))
+        raise _Opaque("embrace with threshold %s" % short(e)[:40])
+
     def expr(self, e, out):
         k = e.get("k")
         if k == "ref" and e.get("name") == "os":
@@ -299,7 +330,9 @@ class PrintReader:
                 i = self.child_index(a[2])
                 if i is None:
                     raise _Opaque("embrace of a non-child")
-                out.append(("child", i, "strict" if name == "embrace_strict" else "loose"))
+                mode = "strict" if name == "embrace_strict" else "loose"
+                thr = self.threshold(a[3]) if len(a) > 3 else "parent"
+                out.append(("child", i, mode if thr == "parent" else mode + "@" + thr))
                 return
             if name == "print" and e.get("recv") is not None:
                 i = self.child_index(e["recv"])
@@ -319,6 +352,29 @@ class PrintReader:
 
 class _Opaque(Exception):
     pass
+
+
+def _threshold_value(term, parent, prec):
+    term = term.strip()
+    if term == "parent":
+        return parent
+    if term.startswith("K:"):
+        return prec.get(term[2:])
+    m = re.match(r"(max|min)\((.*)\)$", term)
+    if m:
+        depth, cut = 0, None
+        for i, ch in enumerate(m.group(2)):
+            depth += ch == "("
+            depth -= ch == ")"
+            if ch == "," and depth == 0:
+                cut = i
+                break
+        a = _threshold_value(m.group(2)[:cut], parent, prec)
+        b = _threshold_value(m.group(2)[cut + 1:], parent, prec)
+        if a is None or b is None:
+            return None
+        return max(a, b) if m.group(1) == "max" else min(a, b)
+    raise AnalysisBroken("unreadable embrace threshold %r" % term)
 
 
 # ------------------------------------------------------------------------------- text -> tokens
@@ -405,10 +461,17 @@ def run(chk, F, G):
         lay[k] = ly
         bad = [it for it in ly.items if it[0] == "atom"]
         if k in ("FORALL", "EXISTS", "SUM"):
-            dump = [it for it in bad if "str()" in it[1]]
-            chk.ob(rid2, "%s|binder-type" % k, not dump,
-                   "expression_t::print writes the binder type of %s with type_t::str(), an internal s-expression "
-                   "dump (e.g. `(range (int) 0 1)`) that the parser rejects" % k,
+            dump, decl, unwrapped, wraps = _binder_type_text(F, PR.fn, k)
+            chk.ob(rid2, "%s|binder-type" % k, not dump and bool(decl),
+                   "expression_t::print writes the binder type of %s with %s, an internal s-expression "
+                   "dump (e.g. `(range (int) 0 1)`) that the parser rejects" % (k, ", ".join(dump) or "no type text at all")
+                   if (dump or not decl) else
+                   "the binder type of %s is written in declaration syntax (%s)" % (k, ", ".join(decl)),
+                   "%s:%s" % (PR.fn["file"], PR.fn["line"]))
+            chk.ob(rid2, "%s|binder-prefix" % k, all(w in unwrapped for w in wraps),
+                   "the builder stores the bound variable's type under the prefix %s (create_prefix in "
+                   "expr_forall_begin), which `Id ':' Type` in the grammar does not accept: print must take it off "
+                   "before writing the type; kinds it tests for: %s" % ("/".join(sorted(wraps)), sorted(unwrapped) or "none"),
                    "%s:%s" % (PR.fn["file"], PR.fn["line"]))
         elif bad and k != "IDENTIFIER":
             chk.ob(rid2, "%s|text" % k, False, "expression_t::print emits non-syntax text for %s: %s" % (k, bad),
@@ -468,7 +531,10 @@ def run(chk, F, G):
             return s
         if full:
             return "(" + s + ")"
+        mode, _, thr = mode.partition("@")
         pp, cp = PR.prec.get(pkind), PR.prec.get(c[0])
+        if thr and pp is not None:
+            pp = _threshold_value(thr, pp, PR.prec)
         if mode == "raw" or pp is None or cp is None:
             return s
         if mode == "strict":
@@ -595,18 +661,163 @@ def run(chk, F, G):
     rid3 = "R-DBL"
     chk.rule(rid3, "a floating-point constant is written with at least max_digits10 significant digits (otherwise "
                    "the printed text re-parses to a different double)")
-    prec_set = False
-    for n in walk(PR.fn["body"]):
-        if n.get("k") == "call" and n.get("name") in ("setprecision", "precision"):
-            prec_set = True
-    # also helpers called on the CONSTANT path
-    for c in calls(PR.fn["body"]):
-        if c.get("name") in ("to_chars", "format"):
-            prec_set = True
-    chk.ob(rid3, "CONSTANT|double", prec_set,
-           "expression_t::print streams get_double_value() with the default ostream precision (6 significant "
-           "digits): 0.1234567891 prints as 0.123457 and re-parses to a different constant",
+    run_double(chk, F, PR, rid3)
+
+
+def _binder_type_text(F, pr, kind):
+    """How the print slice of a quantifier kind turns a type_t into text: (dump calls, declaration calls, type kinds it
+    tests the type for, prefixes the builder wraps the binder type in)."""
+    from ..inline import KindSlicer
+    sl = KindSlicer(F, pr, subject="this", stop=("print",), expand_helpers=True).slice(kind)
+    dump, decl, tested = [], [], set()
+    for c in calls(sl):
+        cls = (c.get("cls") or "").split("::")[-1]
+        if cls == "type_t" and c.get("name") in ("str", "print"):
+            dump.append("type_t::%s" % c["name"])
+        elif cls == "type_t" and c.get("name") in ("print_declaration", "declaration"):
+            decl.append("type_t::%s" % c["name"])
+        elif c.get("ck") == "op" and c.get("op") == "<<" and any("type_t" in (t or "") for t in (c.get("cpt") or [])[1:]):
+            dump.append("operator<<(ostream&, type_t)")
+    for n in walk(sl):
+        if n.get("k") == "bin" and n.get("op") in ("==", "!="):
+            for x, y in ((n["lhs"], n["rhs"]), (n["rhs"], n["lhs"])):
+                if x.get("k") == "call" and x.get("name") == "get_kind" and "type_t" in (x.get("cls") or "") and \
+                        y.get("k") == "ref" and y.get("dk") == "enumerator":
+                    tested.add(y["name"])
+        if n.get("k") == "call" and n.get("name") in ("is", "is_prefix") and "type_t" in (n.get("cls") or ""):
+            for a in n.get("args", []):
+                if a.get("k") == "ref" and a.get("dk") == "enumerator":
+                    tested.add(a["name"])
+    wraps = set()
+    begin = {"FORALL": "expr_forall_begin", "EXISTS": "expr_exists_begin", "SUM": "expr_sum_begin"}[kind]
+    todo, seen = ["UTAP::ExpressionBuilder::" + begin], set()
+    while todo:
+        q = todo.pop()
+        if q in seen:
+            continue
+        seen.add(q)
+        for fn in F.fns(q):
+            if fn.get("body") is None:
+                continue
+            for c in calls(fn["body"]):
+                if c.get("name") == "create_prefix" and c.get("args") and c["args"][0].get("dk") == "enumerator":
+                    wraps.add(c["args"][0]["name"])
+                elif (c.get("fn") or "").startswith("UTAP::ExpressionBuilder::"):
+                    todo.append(c["fn"])
+    return dump, decl, tested, wraps
+
+
+def _int_lit(n):
+    while isinstance(n, dict) and n.get("k") in ("cast", "paren") and n.get("e"):
+        n = n["e"]
+    if isinstance(n, dict) and n.get("k") == "int":
+        try:
+            return int(n.get("v"))
+        except (TypeError, ValueError):
+            return None
+    return None
+
+
+def _double_sinks(F, fn, seen=None):
+    """(site, consumer) pairs for every value of get_double_value() that reaches an output stream in fn or in a
+    same-file helper it hands the value to: consumer is the function body in which the double is turned into text."""
+    out = []
+    parents = {}
+    for n in walk(fn["body"]):
+        for v in n.values():
+            for c in (v if isinstance(v, list) else [v]):
+                if isinstance(c, dict):
+                    parents[id(c)] = n
+    for c in calls(fn["body"]):
+        if c.get("name") != "get_double_value":
+            continue
+        par = parents.get(id(c))
+        while par is not None and par.get("k") in ("cast", "paren"):
+            par = parents.get(id(par))
+        if par is None or par.get("k") != "call":
+            continue
+        if par.get("ck") == "op" and par.get("op") == "<<":
+            out.append((c, fn, "streamed"))
+        elif par.get("ck") in ("free", "static") and par.get("fn"):
+            cands = [h for h in F.fns(par["fn"]) if h.get("file") == fn.get("file") and h.get("body")]
+            if cands:
+                out.append((c, cands[0], "helper"))
+    return out
+
+
+def _double_text_ok(body, param_streamed):
+    """(round_trip, fraction, why) for a function body that turns a double into text."""
+    rt = False
+    why = []
+    showpoint = False
+    for c in calls(body):
+        nm = c.get("name")
+        if nm == "to_chars" and "double" in " ".join(c.get("cpt") or c.get("pt") or []):
+            args = [a for a in c.get("args", []) if not short(a).startswith("<default")]
+            if len(args) == 3:
+                rt = True
+                why.append("std::to_chars(first, last, value): shortest text that round-trips")
+            elif len(args) >= 5 and (_int_lit(args[4]) or 0) >= 17:
+                rt = True
+                why.append("std::to_chars with precision %d" % _int_lit(args[4]))
+            else:
+                why.append("std::to_chars with a format but no (or too small a) precision")
+        if nm in ("setprecision", "precision") and c.get("args"):
+            a = c["args"][0]
+            v = _int_lit(a)
+            if (v is not None and v >= 17) or "max_digits10" in short(a):
+                rt = True
+                why.append("stream precision %s" % short(a))
+            else:
+                why.append("stream precision %s is below max_digits10 (17)" % short(a))
+    for n in walk(body):
+        if n.get("k") == "ref" and n.get("name") == "showpoint":
+            showpoint = True
+    frac = showpoint
+    for c in calls(body):
+        if c.get("ck") == "op" and c.get("op") == "<<":
+            for a in c.get("args", [])[1:]:
+                if a.get("k") == "str" and str(a.get("v", "")).startswith("."):
+                    frac = True
+    return rt, frac, "; ".join(why) or "default stream formatting (6 significant digits, no fraction for integral values)"
+
+
+def run_double(chk, F, PR, rid3):
+    """R-DBL, two clauses per place where expression_t::print turns a double into text: the text carries enough digits
+    to read back as the same double (shortest round-trip conversion, or >= max_digits10 digits), and it cannot be a bare
+    digit string, which the scanner reads as T_NAT (an integer constant: `1.0 / 2` would come back as `1 / 2`)."""
+    sinks = _double_sinks(F, PR.fn)
+    if len(sinks) < 1:
+        raise AnalysisBroken("R-DBL: no get_double_value() print site found in %s" % PR.fn["q"])
+    nrt = nfrac = 0
+    bad_rt, bad_frac = [], []
+    for c, consumer, how in sinks:
+        rt, frac, why = _double_text_ok(consumer["body"], how == "streamed")
+        where = "%s:%s via %s (%s)" % (PR.fn["file"], c.get("l"), consumer["name"] if how == "helper" else "operator<<", why)
+        if how == "streamed":
+            # a raw `os << double`: stream state set in print itself would count, the switch case does not set any
+            rt2, frac2, why2 = False, False, "streamed with the ostream's current precision"
+            for k in calls(PR.fn["body"]):
+                if k.get("name") in ("setprecision", "precision"):
+                    rt2, frac2, why2 = _double_text_ok(PR.fn["body"], True)
+            rt, frac, why = rt2, frac2, why2
+            where = "%s:%s os << get_double_value() (%s)" % (PR.fn["file"], c.get("l"), why)
+        (bad_rt if not rt else []).append(where)
+        (bad_frac if not frac else []).append(where)
+        nrt += rt
+        nfrac += frac
+    chk.ob(rid3, "CONSTANT|double", not bad_rt,
+           "expression_t::print writes a double with too few digits to read back as the same value "
+           "(0.1234567891 prints as 0.123457): %s" % "; ".join(bad_rt) if bad_rt else
+           "all %d places where expression_t::print writes a double use a round-trip conversion" % len(sinks),
            "%s:%s" % (PR.fn["file"], PR.fn["line"]))
+    chk.ob(rid3, "CONSTANT|double-fraction", not bad_frac,
+           "expression_t::print can write an integral double as a bare digit string, which the scanner reads as an "
+           "integer constant (1.0 / 2 re-parses as integer division; Pr[..](..) >= 1.0 as a syntax error): %s"
+           % "; ".join(bad_frac) if bad_frac else
+           "all %d places where expression_t::print writes a double guarantee a fraction or exponent" % len(sinks),
+           "%s:%s" % (PR.fn["file"], PR.fn["line"]))
+    chk.analysed[rid3] = {"double_print_sites": len(sinks), "round_trip": nrt, "fraction_guaranteed": nfrac}
 
 
 # ------------------------------------------------------------------------------- R-PRROLES
@@ -783,3 +994,38 @@ def run_total(chk, F, rid="R-PRTOTAL"):
            "chan_priority_t::print hands every tail entry to expression_t::print; the `default` entry is an empty "
            "expression and prints as nothing (`a <  < b`), so the written declaration does not parse",
            "%s:%s" % (cp["file"], cp["line"]))
+
+
+# ------------------------------------------------------------------------------- R-PRSTRING
+def run_strquote(chk, F, rid="R-PRSTRING"):
+    """A string constant is read from `"text"` (make_constant(const std::string&) strips the quotes with std::quoted) and
+    the scanner turns only a quoted text into T_CHARARR; printed bare it re-parses as an identifier."""
+    from ..inline import sites_with_conditions, flatten_conds
+    chk.rule(rid, "where expression_t::print writes the text of a string-typed CONSTANT it writes it quoted (std::quoted or "
+                  "explicit quote characters), and no case adds a second pair of quotes around a printed child")
+    pr = F.fn("UTAP::expression_t::print")
+    sites = sites_with_conditions(pr["body"], lambda x: x.get("k") == "call" and x.get("name") == "get_string_value" and
+                                  (x.get("recv") is None or (x.get("recv") or {}).get("k") == "this"))
+    if not sites:
+        raise AnalysisBroken("expression_t::print never writes get_string_value() of the node itself")
+    for s_, conds in sites:
+        # is this occurrence wrapped in std::quoted(..)?
+        quoted = False
+        for q in walk(pr["body"]):
+            if q.get("k") == "call" and q.get("name") == "quoted" and any(x is s_ for x in walk(q)):
+                quoted = True
+        chk.ob(rid, "CONSTANT|string", quoted,
+               "expression_t::print writes a string constant without quotes: `s == 'hello'` (double-quoted in the model) prints as `s == hello`, "
+               "which re-parses as a comparison with the identifier hello (or fails with $Unknown_identifier)",
+               "%s:%s" % (pr["file"], s_.get("l")))
+    # no hand-written quotes around get(i).print(..)
+    double = []
+    for c in walk(pr["body"]):
+        if c.get("k") == "call" and c.get("name") == "print" and c.get("args"):
+            for x in walk(c["args"][0]):
+                if x.get("k") == "str" and x.get("v", "").endswith('"') and x.get("v") != '"':
+                    double.append("line %s: `%s`" % (c.get("l"), x["v"]))
+    chk.ob(rid, "no-double-quotes", not double,
+           "expression_t::print writes a quote character itself right before printing a child (%s): a string constant "
+           "child prints its own quotes, so the text gets two pairs" % "; ".join(double[:2]),
+           "%s:%s" % (pr["file"], pr["line"]))
